@@ -2,7 +2,9 @@
 //! One sub-command per property; each writes a result file for the driver.
 
 mod c05;
+mod c13;
 mod c18;
+mod jsonref;
 
 use hvcommon::args::Args;
 
@@ -10,6 +12,7 @@ fn main() {
     let args = Args::from_env();
     match args.cmd() {
         "c05" => c05::main(&args),
+        "c13" => c13::main(&args),
         "c18" => c18::main(&args),
         other => {
             eprintln!("unknown sub-command {:?}", other);
